@@ -30,8 +30,16 @@ How it works (one executable per translation unit)
     sides is agreement-by-UB (counted, not compared); on one side only it is a disagreement.
   * Results: integers exactly, doubles bitwise (every NaN equals every NaN), `const char *` results as
     "argK+offset" when they point into an input string, else by content.
+  * Eligible: free functions and static methods; const methods of SimpleString (receiver built from an input
+    string); methods of default-constructible classes (receiver = a fresh default-constructed real object per
+    side and call).  Parameters: integers, bool, char, enums (enumerator values only), double/float,
+    `const char *` (valid NUL-terminated strings, exact-size heap objects), `const SimpleString &`.
+    Result: a scalar or `const char *`.  Everything else is skipped with a reason, as is every function whose
+    callee closure leaves the unit, touches mutable globals or uses a platform seam without a libc mapping.
+  * Also checked per function: the emitted prototype has the type of the real function (kind "prototype").
+  * TVD_VERBOSE=1 keeps the sanitizer reports of crashing children on stderr.
 """
-import os, sys, re, json, time, glob, subprocess, threading
+import os, sys, re, json, time, glob, subprocess, threading, tempfile
 from concurrent.futures import ThreadPoolExecutor
 
 HERE = os.path.dirname(os.path.abspath(__file__))
@@ -192,7 +200,7 @@ def analyse(u, tu_rel, cname):
     return c
 
 
-def closure(u, cname, corrupt=None):
+def closure(u, cname):
     """emitted text of cname and of every callee extractable from the same unit, callees first.
     returns (order [(cname, record)], seams set, globals {name: text})"""
     order = []; seen = set(); seams = set(); globs = {}
@@ -536,7 +544,13 @@ static void tvd_writen(int fd, const void *buf, size_t n)
     size_t put = 0;
     while (put < n) { ssize_t r = write(fd, (const char *)buf + put, n - put); if (r < 0 && errno == EINTR) continue; if (r <= 0) _exit(99); put += (size_t)r; }
 }
-static void tvd_quiet(void) { if (!getenv("TVD_VERBOSE")) { int fd = open("/dev/null", O_WRONLY); if (fd >= 0) { dup2(fd, 2); close(fd); } } }
+static void tvd_quiet(void)
+{   /* children never write to the result stream; sanitizer reports are dropped unless TVD_VERBOSE is set */
+    int fd = open("/dev/null", O_WRONLY);
+    if (fd < 0) return;
+    dup2(fd, 1); if (!getenv("TVD_VERBOSE")) dup2(fd, 2);
+    close(fd);
+}
 static void tvd_status(char *out, int st)
 {
     if (WIFSIGNALED(st)) snprintf(out, TVD_REPR, "CRASH(signal %d%s)", WTERMSIG(st), WTERMSIG(st) == SIGALRM ? ": timeout" : "");
@@ -791,8 +805,7 @@ def lib_objects(session, ext=False, defines=()):
 
 def _build(session, u, tu_rel, cands, closures, tag, defines, corrupt, libs):
     """returns (exe, None) or (None, error text)"""
-    d = os.path.join(session.dir, 'tv_' + re.sub(r'\W', '_', tu_rel) + '_' + tag)
-    os.makedirs(d, exist_ok=True)
+    d = tempfile.mkdtemp(prefix='tv_' + re.sub(r'\W', '_', os.path.basename(tu_rel)) + '_' + tag + '.', dir=session.dir)
     try:
         ctext = c_side_text(u, cands, closures, corrupt)
         dtext = driver_text(tu_rel, cands)
@@ -842,7 +855,7 @@ def _execute(exe, seed, n_random, cap, timeout):
     return rc, recs, se
 
 
-def _validate_tu(session, tu_rel, names, n_random, seed, defines, corrupt, out, libs_future, cap, keep_going=True):
+def _validate_tu(session, tu_rel, names, n_random, seed, defines, corrupt, out, libs_future, cap):
     try:
         u = session.unit(tu_rel, defines)
     except verif.Broken as ex:
@@ -884,7 +897,8 @@ def _validate_tu(session, tu_rel, names, n_random, seed, defines, corrupt, out, 
         done = set()
         for r in recs:
             if r.get('t') == 'dis':
-                out['disagreements'].append(dict(function=r['fn'], tu=tu_rel, inputs=r['inputs'], c_result=r['c'], cxx_result=r['cxx']))
+                kind = 'crash' if (r['c'].startswith('CRASH(') or r['cxx'].startswith('CRASH(')) else 'value'
+                out['disagreements'].append(dict(function=r['fn'], tu=tu_rel, inputs=r['inputs'], c_result=r['c'], cxx_result=r['cxx'], kind=kind))
             elif r.get('t') == 'sample':
                 if sum(1 for s in out['samples'] if s['function'] == r['fn']) < 4:
                     out['samples'].append(dict(function=r['fn'], inputs=r['inputs'], result=r['c']))
@@ -907,10 +921,13 @@ def _validate_tu(session, tu_rel, names, n_random, seed, defines, corrupt, out, 
                 out['skipped'].append(dict(function=c.cname, tu=tu_rel, reason='driver did not finish (rc=%s): %s' % (rc, se[-300:])))
 
 
-def validate(session, pairs, n_random=300, seed=0, defines=(), cap=CAP_BOUNDARY, _corrupt=None):
+def validate(session, pairs, n_random=300, seed=None, defines=(), cap=CAP_BOUNDARY, _corrupt=None):
     """pairs: iterable of (translation unit path relative to /repo, C function name).
-    returns dict(programs, inputs_run, disagreements, skipped, samples, wall_s, per_function, ub_examples)"""
+    seed None = $VERIF_SEED or 0.  defines: extra -D for both sides (build variant).  cap: boundary combinations per function.
+    returns dict(programs, inputs_run, disagreements [dict(function, tu, inputs, c_result, cxx_result, kind value|crash|prototype)],
+                 skipped [dict(function, tu, reason)], samples, wall_s, per_function, ub_examples, seed, n_random)"""
     t0 = time.time()
+    if seed is None: seed = int(os.environ.get('VERIF_SEED', '0') or 0)
     out = dict(programs=0, inputs_run=0, disagreements=[], skipped=[], samples=[], per_function=[], ub_examples=[], wall_s=0.0,
                seed=seed, n_random=n_random)
     by_tu = {}
@@ -971,7 +988,7 @@ def _sub_code(text, pat, repl):
     return '\n'.join(lines)
 
 
-def selftest(session, n_random=300, seed=0):
+def selftest(session, n_random=300, seed=None):
     """returns dict(ok, baseline_disagreements, mutants=[dict(function, mutation, changed, detected, example)])"""
     t0 = time.time()
     pairs = sorted(set((tu, fn) for tu, fn, _, _ in MUTANTS))
@@ -999,7 +1016,6 @@ def selftest(session, n_random=300, seed=0):
 # CLI
 
 def _print_report(res, verbose=False):
-    pf = {p['function']: p for p in res['per_function']}
     print('%-58s %-9s %8s %8s %6s' % ('function', 'status', 'compared', 'boundary', 'UB'))
     for p in res['per_function']:
         st = 'DISAGREE' if (p['disagreements'] or p['proto_same'] == 0) else 'agree'
